@@ -405,11 +405,13 @@ def known_finding(op, a, io, mo):
             if len(outs_i) != len(outs_m):
                 return None
             # outputs of P steps, in order, are those of the form pos@msg / err:..@pos; map by walking the steps
-            kinds = [st[0] for st in a if st[:1] in 'FSAPMZGQX']
+            kinds = [st[0] for st in a if st[:1] in 'FSAPX']
             if len(kinds) != len(outs_m):
                 return None
             ids, pi = set(), 0
             for k, (x, y) in enumerate(zip(outs_i, outs_m)):
+                if y.endswith('@payload'):
+                    y = y[:-len('@payload')]
                 if kinds[k] != 'P':
                     if x != y:
                         return None
@@ -429,6 +431,32 @@ def known_finding(op, a, io, mo):
     except Exception:  # noqa: BLE001 - unparsable answer: not the known behaviour
         return None
     return None
+
+
+def rejected_ok(mfam, ifam, data, start, magic, ipos=None):
+    """The model rejects the frame that starts at `start` of `data` with family `mfam` (a frame-level rejection: wrong
+    magic, wrong checksum, truncated, impossible length).  What the statement demands of the real code there:
+      * an error of the library's families (not a stray Python exception, not a message);
+      * the TRUNCATION error where the statement names it — a truncated frame; on a stream too short to hold a header
+        whose visible magic bytes are already wrong, "wrong magic" applies as well and either is accepted;
+      * for wrong magic / wrong checksum / a length that cannot be honoured: "rejected with an error", any family;
+      * a stream position not beyond the frame: start <= position <= min(end of stream, start + 24 + declared length)
+        (the whole remaining stream when no complete header is there)."""
+    if ifam.startswith(('py:', 'harness:')):
+        return False
+    avail = len(data) - start
+    header = avail >= 24
+    visible = data[start:start + 4]
+    magic_ok = visible == magic[:len(visible)]
+    if mfam == 'trunc' and ifam != 'trunc' and (header or magic_ok):
+        return False
+    if ipos is not None:
+        end = len(data)
+        if header:
+            end = min(end, start + 24 + struct.unpack('<I', data[start + 16:start + 20])[0])
+        if not (start <= ipos <= end):
+            return False
+    return True
 
 
 class HarnessError(RuntimeError):
@@ -473,7 +501,14 @@ class C18(Prop):
                     'socket.inet_pton/inet_ntop are modelled as the identity on the 16 packed address bytes '
                     '(validated by the correspondence run)',
                     'Crypto.hash256 = hashlib SHA-256 applied twice, 32 bytes long (validated by every compared frame)']
-    assumptions = ['a corrupted payload is detected unless its 32-bit checksum collides (the run compares the real '
+    assumptions = ['for a frame the statement says is rejected only this is compared: an error of the library is raised '
+                   '(the truncation error for a truncated frame), nothing is returned, and the stream position is not '
+                   'beyond the frame; not the exact class, not which of two applicable errors wins, not how much of '
+                   'the frame was read', 'results of serialize(), GetHash(), ==, repr(), msg_ser on a message are not '
+                   'compared (they run in the histories only for the state they may leave behind)',
+                   'T1 compares only that the seventeen command strings exist; PROTO_VERSION, CADDR_TIME_VERSION, '
+                   'IPV4_COMPAT, MAX_SIZE, class names and the organisation of msg_classes/messagemap are evidence',
+                   'a corrupted payload is detected unless its 32-bit checksum collides (the run compares the real '
                    'checksums, so a collision would show as agreement, not as an alarm)']
     rule = ('HISTORIES on live objects (frame / in-place edit of every field kind / re-frame / parse back / edit the '
             'parsed object / SelectParams tour over all 12 ordered chain pairs / one BytesIO read repeatedly / two '
@@ -498,7 +533,6 @@ class C18(Prop):
         from bitcoin.messages import msg_notfound, msg_reject  # not in __all__ (O6)
         self.bitcoin, self.M, self.N = bitcoin, M, N
         self.cls = {n: getattr(M, 'msg_' + n) for n in NAMES}
-        assert self.cls['notfound'] is msg_notfound and self.cls['reject'] is msg_reject
         self.by_cls = {v: k for k, v in self.cls.items()}
         self.devnull = io.StringIO()
 
@@ -703,25 +737,24 @@ class C18(Prop):
                         return 'harness:field-values-differ after ' + st[:60]
                 elif hd[0] == 'F':
                     out.append(guarded(lambda: frame(hd[1]).hex()) if hd[1] in regs else 'noreg')
-                elif hd[0] in ('M', 'Z', 'G'):
-                    # other observers of the same live object: msg_ser into a stream, serialize(), GetHash()
-                    def observe(o=regs.get(hd[1]), how=hd[0]):
-                        if how == 'M':
-                            g = io.BytesIO()
-                            o.msg_ser(g)
-                            return g.getvalue().hex()
-                        return (o.serialize() if how == 'Z' else o.GetHash()).hex()
-                    out.append(guarded(observe) if hd[1] in regs else 'noreg')
-                elif hd[0] == 'R':
-                    try:                       # only that repr() ran on the object; its text is not constrained
-                        repr(regs.get(hd[1]))
+                elif hd[0] in ('M', 'Z', 'G', 'R', 'Q'):
+                    # other observers of the same live object(s): msg_ser into a stream, serialize(), GetHash(),
+                    # repr(), ==.  The statement says nothing about their results, so nothing is compared: they run
+                    # because a memo they fill (or fail to drop) must not change what to_bytes / the parser do next.
+                    try:
+                        o = regs.get(hd[1])
+                        if hd[0] == 'M':
+                            o.msg_ser(io.BytesIO())
+                        elif hd[0] == 'Z':
+                            o.serialize()
+                        elif hd[0] == 'G':
+                            o.GetHash()
+                        elif hd[0] == 'R':
+                            repr(o)
+                        else:
+                            o == regs.get(hd[2])
                     except Exception:  # noqa: BLE001
                         pass
-                elif hd[0] == 'Q':
-                    if hd[1] in regs and hd[2] in regs:
-                        out.append(guarded(lambda: 'eq' if regs[hd[1]] == regs[hd[2]] else 'ne'))
-                    else:
-                        out.append('noreg')
                 elif hd[0] == 'X':
                     b = bytes.fromhex(hd[2])
                     streams[hd[1]] = io.BytesIO(b)
@@ -799,21 +832,27 @@ class C18(Prop):
         return '~'.join(out)
 
     def model_line(self, c):
+        if c['op'] == 'c18.hist':       # observers whose result is not compared are not sent to the model
+            return '\t'.join([c['op']] + [st for st in c['args'] if st[:2] not in ('M ', 'Z ', 'G ', 'R ', 'Q ')])
         if c['op'] == 'c18.frame':
             return '\t'.join([c['op']] + list(c['args'][:2]))
         return c.line
 
     def agree(self, c, io, mo):
-        """Strict equality on what the property constrains; a difference is tolerated only where the property is
-        silent.  The model marks that itself:
-          frame      tag `|O` = field values outside the wire ranges / the protocol version (WFMsg false);
-          parse      an entry that is not the canonical frame of the message returned (re-framing differs: bytes
-                     after the NUL of the command, left-over payload bytes, non-canonical counts), an unknown
-                     command (`none`), or an error raised inside msg_deser for a payload whose header, length and
-                     checksum were accepted (`@payload`).
-        Frames of in-domain messages, wrong magic, wrong checksum, truncation and impossible lengths are always
-        compared strictly, entry by entry, including the stream position."""
-        op = c['op']
+        """What the statement constrains, and no more.
+          to_bytes of an in-domain message: the bytes.  Returned messages: type, field values, the stream position
+          after each (exactly the frame), re-framing.  A frame the statement says is REJECTED (wrong magic, wrong
+          checksum, truncated, impossible length): an error — the truncation error where the statement names it —
+          and a stream position that is not beyond the frame (`rejected_ok`); neither the exact class of the error nor
+          which of two applicable errors wins nor how much of the frame was read is compared.
+        A difference is tolerated where the statement is silent; the model marks that itself:
+          frame   tag `|O` = field values outside the wire ranges / the protocol version (WFMsg false);
+          parse   an entry that is not the canonical frame of the message returned (bytes after the NUL of the command,
+                  left-over payload bytes, non-canonical counts), an unknown command (`none`), or an error raised
+                  inside msg_deser for a payload whose header, length and checksum were accepted (`@payload`)."""
+        op, a = c['op'], c['args']
+        if io.startswith('harness:') and not io.startswith('harness:field-values-differ'):
+            return True              # err:harness:<Class> style answers are the framework's business
         if io.startswith('harness:'):
             # the generator's value tracking disagrees with the live object: an infrastructure error.  Inside a
             # worker the case is recorded (signature() then stops the run in the main process with exit 2); in the
@@ -822,27 +861,101 @@ class C18(Prop):
                 harness_fail(io + ' | ' + c.line[:300])
             return False
         if op == 'c18.hist':
-            return io == mo          # every step is compared strictly
-        if op in ('c18.frame', 'c18.frombytes'):
+            return self.agree_hist(a, io, mo)
+        if op == 'c18.frame':
             # the domain tag is the LAST thing in the model's answer: anything else there is a malformed answer
             if mo[-2:] not in ('|W', '|O'):
                 return False
             return io == mo[:-2] or mo[-2:] == '|O'
+        data = bytes.fromhex(a[1])
+        magic = MAGIC.get(a[0], b'')
+        if op == 'c18.frombytes':
+            if mo[-2:] not in ('|W', '|O'):
+                return False
+            if io == mo[:-2] or mo[-2:] == '|O':
+                return True
+            if mo.startswith('err:') and io.startswith('err:'):       # a frame-level rejection
+                return rejected_ok(mo[4:-2], io[4:], data, 0, magic)
+            return False
         ii, mm = io.split('~'), mo.split('~')
         # the model's answer must be well-formed to its end (a tolerated difference further up must not hide a
         # damaged answer): it closes with `eof` or with an error at a position inside the stream
         fin = re.fullmatch(r'err:[A-Za-z0-9_:]+@(\d+)(@payload)?', mm[-1])
-        if not (mm[-1] == 'eof' or (fin and int(fin.group(1)) <= len(c['args'][1]) // 2)):
+        if not (mm[-1] == 'eof' or (fin and int(fin.group(1)) <= len(data))):
             return False
         for k in range(max(len(ii), len(mm))):
-            a = ii[k] if k < len(ii) else ''
-            b = mm[k] if k < len(mm) else ''
-            strict = not (b.endswith('@payload') or b.endswith('@none@-') or b.endswith('@diff') or
-                          '@err:' in b)
-            if b.endswith('@payload'):
-                b = b[:-len('@payload')]
-            if a != b:
-                return not strict
+            x = ii[k] if k < len(ii) else ''
+            y = mm[k] if k < len(mm) else ''
+            strict = not (y.endswith('@payload') or y.endswith('@none@-') or y.endswith('@diff') or
+                          '@err:' in y)
+            if y.endswith('@payload'):
+                y = y[:-len('@payload')]
+            if x != y:
+                if not strict:
+                    return True
+                fy, fx = re.fullmatch(r'err:([A-Za-z0-9_:]+)@(\d+)', y), re.fullmatch(r'err:([A-Za-z0-9_:]+)@(\d+)', x)
+                if fy and fx and k == len(ii) - 1:
+                    start = int(mm[k - 1].split('@')[0]) if k else 0
+                    return rejected_ok(fy.group(1), fx.group(1), data, start, magic, int(fx.group(2)))
+                return False
+        return True
+
+    def agree_hist(self, a, io, mo):
+        """outputs step by step; a rejected parse by `rejected_ok` (the bytes of the stream are known for `X` streams,
+        otherwise only its length); once a rejecting reader stands elsewhere in the stream than the model (both inside
+        the rejected frame) nothing further can be compared in this history"""
+        ii, mm = io.split('~'), mo.split('~')
+        if len(ii) != len(mm):
+            return False
+        steps = [st for st in a if st[:1] in 'FSAPX']
+        if len(steps) != len(mm):
+            return io == mo
+        raw, total, pos, chain = {}, {}, {}, 'mainnet'
+        k = -1
+        for st in a:
+            hd = st.split('#')[0].split(' ')
+            if hd[0] == 'C':
+                chain = hd[1]
+            if st[:1] not in 'FSAPX':
+                continue
+            k += 1
+            x, y = ii[k], mm[k]
+            if hd[0] == 'X':
+                raw[hd[1]], total[hd[1]], pos[hd[1]] = bytes.fromhex(hd[2]), len(hd[2]) // 2, 0
+            elif hd[0] in 'SA' and x == y and y.startswith('len='):
+                if hd[0] == 'S':
+                    total[hd[1]], pos[hd[1]] = int(y[4:]), 0
+                    raw.pop(hd[1], None)
+                else:
+                    total[hd[1]] = total.get(hd[1], 0) + int(y[4:])
+                    raw.pop(hd[1], None)
+            payload_level = y.endswith('@payload')
+            if payload_level:
+                y = y[:-len('@payload')]
+            if x == y:
+                if hd[0] == 'P' and '@' in y:
+                    f = y.split('@')
+                    pos[hd[1]] = int(f[1] if y.startswith('err:') else f[0])
+                continue
+            if hd[0] != 'P':
+                return False
+            if payload_level:
+                return True
+            fy, fx = re.fullmatch(r'err:([A-Za-z0-9_:]+)@(\d+)', y), re.fullmatch(r'err:([A-Za-z0-9_:]+)@(\d+)', x)
+            if not (fy and fx):
+                return False
+            sid, start = hd[1], pos.get(hd[1], 0)
+            data = raw.get(sid)
+            if data is None:        # frames of registers: only the length of the stream is known here
+                ok = not fx.group(1).startswith(('py:', 'harness:')) and start <= int(fx.group(2)) <= total.get(sid, 0) \
+                    and (fy.group(1) != 'trunc' or fx.group(1) == 'trunc')
+            else:
+                ok = rejected_ok(fy.group(1), fx.group(1), data, start, MAGIC.get(chain, b''), int(fx.group(2)))
+            if not ok:
+                return False
+            if fx.group(2) != fy.group(2):
+                return True         # the two readers now stand at different places of the rejected frame
+            pos[sid] = int(fy.group(2))
         return True
 
     # ---- generation -----------------------------------------------------------------------------
@@ -872,7 +985,8 @@ class C18(Prop):
                 wild = (j % 3 == 2)
                 m = gen_msg(rng, kind, wild=wild, lowver=True)
                 ch = CHAINS[(j + shard) % 4]
-                yield mk('c18.frame', ch, show_msg(m), rng.randrange(64), tag='frame:' + kind)
+                # field values outside the wire ranges / the protocol version: outside the statement's quantifier
+                yield mk('c18.frame', ch, show_msg(m), rng.randrange(64), tag='frame:' + kind, ood=wild)
                 if not wild or kind == 'version':
                     wf.append((ch, m))
         # version boundary versions with all fields present: what a node of that version would parse
@@ -1051,7 +1165,9 @@ class C18(Prop):
                 s = py_frame(MAGIC[ch], cmd, lead + payload[1:])
             else:           # random payload under a known command
                 s = py_frame(MAGIC[ch], rng.choice(NAMES).encode(), rng.randbytes(rng.choice([0, 1, 8, 30, 81, 200])))
-            yield mk('c18.parse', ch, (s + tail).hex(), tag='malformed:%d' % r)
+            # well-framed (magic, length and checksum right) but a payload / command the statement does not speak
+            # about: outside its quantifier
+            yield mk('c18.parse', ch, (s + tail).hex(), tag='malformed:%d' % r, ood=True)
 
     # ---- bookkeeping ----------------------------------------------------------------------------
     def nontrivial(self, c, io):
@@ -1066,7 +1182,7 @@ class C18(Prop):
         if op == 'c18.hist':
             # prefixes only: dropping a step from the middle would desynchronise the recorded field values
             for k in range(2, len(a)):
-                if a[k - 1][:1] in 'FSAPMZGQX':
+                if a[k - 1][:1] in 'FSAPX':
                     yield mk(op, *a[:k], tag=c.get('tag', ''))
             return
         if op == 'c18.frame':
